@@ -1,0 +1,528 @@
+//! Verification hooks. Only compiled with `--cfg wilfred_garden_verif`.
+//!
+//! `garden verif serve` reads newline-delimited JSON jobs on stdin and
+//! answers each with one JSON line on stdout. Every job is a thin
+//! adapter onto a crate-private seam; enumeration, oracles and
+//! reporting live outside this repository.
+
+#![allow(missing_docs)]
+#![allow(dead_code)]
+
+use std::cell::RefCell;
+use std::io::{BufRead, Write};
+use std::path::PathBuf;
+use std::rc::Rc;
+use std::sync::atomic::{AtomicBool, Ordering};
+use std::sync::{Arc, Mutex};
+use std::time::Instant;
+
+use serde_json::{json, Value as J};
+
+use crate::checks::check_toplevel_items_in_env;
+use crate::diagnostics::{Diagnostic, Severity};
+use crate::env::Env;
+use crate::eval::{
+    eval_toplevel_items, load_toplevel_items, EvalError, ExceptionInfo, Session, StdoutJsonFormat,
+    StdoutStderrMode,
+};
+use crate::parser::ast::IdGenerator;
+use crate::parser::position::Position;
+use crate::parser::vfs::Vfs;
+use crate::parser::{parse_toplevel_items, ParseError};
+
+thread_local! {
+    /// When `Some`, `print_as_json` appends here instead of writing to stdout.
+    static CAPTURE: RefCell<Option<Vec<String>>> = const { RefCell::new(None) };
+    /// Cumulative eval step numbers at which to raise the interrupt flag.
+    static INJECT: RefCell<Option<(usize, Vec<usize>)>> = const { RefCell::new(None) };
+}
+
+/// Called from `print_as_json`. Returns true if the text was captured.
+pub(crate) fn capture(serialized: &str) -> bool {
+    CAPTURE.with(|c| {
+        if let Some(buf) = c.borrow_mut().as_mut() {
+            buf.push(serialized.to_owned());
+            true
+        } else {
+            false
+        }
+    })
+}
+
+fn start_capture() {
+    CAPTURE.with(|c| *c.borrow_mut() = Some(vec![]));
+}
+
+fn take_capture() -> Vec<String> {
+    CAPTURE.with(|c| c.borrow_mut().replace(vec![]).unwrap_or_default())
+}
+
+fn stop_capture() {
+    CAPTURE.with(|c| *c.borrow_mut() = None);
+}
+
+/// Called at the top of every interpreter step.
+pub(crate) fn on_step(session: &Session) {
+    INJECT.with(|i| {
+        if let Some((count, at)) = i.borrow_mut().as_mut() {
+            *count += 1;
+            if at.contains(count) {
+                session.interrupted.store(true, Ordering::SeqCst);
+            }
+        }
+    });
+    verif_rt::sched::point("eval.step");
+}
+
+pub(crate) fn pos_json(p: &Position) -> J {
+    json!({
+        "start_offset": p.start_offset,
+        "end_offset": p.end_offset,
+        "line_number": p.line_number,
+        "end_line_number": p.end_line_number,
+        "column": p.column,
+        "end_column": p.end_column,
+        "path": p.path.display().to_string(),
+    })
+}
+
+fn parse_error_json(e: &ParseError) -> J {
+    match e {
+        ParseError::Invalid {
+            position,
+            message,
+            notes,
+        } => json!({
+            "kind": "invalid",
+            "message": message.as_string(),
+            "position": pos_json(position),
+            "notes": notes.iter().map(|(m, p)| json!({"message": m.as_string(), "position": pos_json(p)})).collect::<Vec<_>>(),
+        }),
+        ParseError::Incomplete { message, position } => json!({
+            "kind": "incomplete",
+            "message": message.as_string(),
+            "position": pos_json(position),
+            "notes": [],
+        }),
+    }
+}
+
+fn diagnostic_json(d: &Diagnostic) -> J {
+    json!({
+        "message": d.message.as_string(),
+        "severity": match d.severity { Severity::Error => "error", Severity::Warning => "warning" },
+        "position": pos_json(&d.position),
+        "notes": d.notes.iter().map(|(m, p)| json!({"message": m.as_string(), "position": pos_json(p)})).collect::<Vec<_>>(),
+        "fixes": d.fixes.iter().map(|f| json!({"description": f.description, "position": pos_json(&f.position), "new_text": f.new_text})).collect::<Vec<_>>(),
+    })
+}
+
+fn job_path(job: &J) -> PathBuf {
+    PathBuf::from(job["path"].as_str().unwrap_or("/verif_scratch/main.gdn"))
+}
+
+/// Position-free, id-free rendering of parsed items (compact `Debug`
+/// with syntax ids blanked).
+fn norm_debug<T: std::fmt::Debug>(t: &T) -> String {
+    let s = format!("{t:?}");
+    let mut out = String::with_capacity(s.len());
+    let mut rest = s.as_str();
+    loop {
+        let a = rest.find("SyntaxId(");
+        let b = rest.find("ToplevelItemId(");
+        let (idx, skip_len) = match (a, b) {
+            (None, None) => break,
+            (Some(a), None) => (a, "SyntaxId(".len()),
+            (None, Some(b)) => (b, "ToplevelItemId(".len()),
+            (Some(a), Some(b)) => {
+                if a < b {
+                    (a, "SyntaxId(".len())
+                } else {
+                    (b, "ToplevelItemId(".len())
+                }
+            }
+        };
+        out.push_str(&rest[..idx + skip_len]);
+        rest = &rest[idx + skip_len..];
+        let end = rest.find(')').unwrap_or(0);
+        rest = &rest[end..];
+    }
+    out.push_str(rest);
+    out
+}
+
+/// Lex, parse, check (only when there are no parse errors, as the CLI
+/// does) and format `src`.
+fn job_front(job: &J) -> J {
+    let src = job["src"].as_str().unwrap_or("");
+    let path = job_path(job);
+    let want = |k: &str| job["want"].as_array().map(|a| a.iter().any(|x| x == k)).unwrap_or(false);
+
+    let mut res = serde_json::Map::new();
+
+    let mut id_gen = IdGenerator::default();
+    let (vfs, vfs_path) = Vfs::singleton(path.clone(), src.to_owned());
+    let (items, errors) = parse_toplevel_items(&vfs_path, src, &mut id_gen);
+    res.insert(
+        "parse_errors".into(),
+        J::Array(errors.iter().map(parse_error_json).collect()),
+    );
+    if want("ast") {
+        res.insert("ast".into(), J::String(norm_debug(&items)));
+    }
+    if want("ast_pretty") {
+        // What `reftest-ast` prints.
+        let mut s = String::new();
+        for item in &items {
+            match item {
+                crate::parser::ast::ToplevelItem::Expr(e) => s.push_str(&format!("{:#?}\n", e.0.expr_)),
+                d => s.push_str(&format!("{d:#?}\n")),
+            }
+        }
+        res.insert("ast_pretty_len".into(), json!(s.len()));
+    }
+    if want("positions") {
+        res.insert("positions".into(), J::Array(collect_positions(&items)));
+    }
+    if want("comments") {
+        let (tokens, _) = crate::parser::lex::lex(&vfs_path, src);
+        res.insert("comments".into(), J::Array(collect_comments(tokens)));
+    }
+    if want("check") && errors.is_empty() {
+        let mut env = Env::new(id_gen, vfs);
+        let ns = env.get_or_create_namespace(&path);
+        let (mut diags, _) = load_toplevel_items(&items, &mut env, Rc::clone(&ns));
+        diags.extend(check_toplevel_items_in_env(&vfs_path, &items, &env, ns));
+        res.insert(
+            "diagnostics".into(),
+            J::Array(diags.iter().map(diagnostic_json).collect()),
+        );
+    }
+    if want("format") {
+        res.insert("formatted".into(), J::String(crate::format::format(src, &path)));
+    }
+    J::Object(res)
+}
+
+fn collect_comments(mut tokens: crate::parser::lex::TokenStream) -> Vec<J> {
+    let mut out = vec![];
+    while let Some(t) = tokens.pop() {
+        for (p, c) in &t.preceding_comments {
+            out.push(json!({"text": c, "position": pos_json(p)}));
+        }
+    }
+    for (p, c) in &tokens.trailing_comments {
+        out.push(json!({"text": c, "position": pos_json(p)}));
+    }
+    out
+}
+
+struct PosCollector {
+    out: Vec<J>,
+}
+
+impl crate::parser::visitor::Visitor for PosCollector {
+    fn visit_expr(&mut self, expr: &crate::parser::ast::Expression) {
+        self.out.push(pos_json(&expr.position));
+        self.visit_expr_(&expr.expr_);
+    }
+    fn visit_symbol(&mut self, sym: &crate::parser::ast::Symbol) {
+        self.out.push(pos_json(&sym.position));
+    }
+    fn visit_type_symbol(&mut self, sym: &crate::parser::ast::TypeSymbol) {
+        self.out.push(pos_json(&sym.position));
+    }
+}
+
+fn collect_positions(items: &[crate::parser::ast::ToplevelItem]) -> Vec<J> {
+    use crate::parser::visitor::Visitor;
+    let mut c = PosCollector { out: vec![] };
+    for item in items {
+        c.out.push(pos_json(&item.position()));
+        c.visit_toplevel_item(item);
+    }
+    c.out
+}
+
+pub(crate) fn eval_error_json(e: &EvalError) -> J {
+    match e {
+        EvalError::Interrupted => json!({"kind": "interrupted"}),
+        EvalError::Exception(ExceptionInfo { position, message }) => {
+            json!({"kind": "exception", "message": message.as_string(), "position": pos_json(position)})
+        }
+        EvalError::AssertionFailed(position, message) => {
+            json!({"kind": "assertion", "message": message.as_string(), "position": pos_json(position)})
+        }
+        EvalError::ReachedTickLimit(position) => {
+            json!({"kind": "tick_limit", "position": pos_json(position)})
+        }
+        EvalError::ReachedStackLimit(position) => {
+            json!({"kind": "stack_limit", "position": pos_json(position)})
+        }
+        EvalError::ForbiddenInSandbox(position) => {
+            json!({"kind": "sandbox", "position": pos_json(position)})
+        }
+    }
+}
+
+/// Mirror of `run_file` in main.rs with output captured in memory.
+fn job_run(job: &J) -> J {
+    let src = job["src"].as_str().unwrap_or("");
+    let path = job_path(job);
+
+    let mut id_gen = IdGenerator::default();
+    let mut vfs = Vfs::default();
+    let vfs_path = vfs.insert(Rc::new(path.clone()), src.to_owned());
+    let (items, errors) = parse_toplevel_items(&vfs_path, src, &mut id_gen);
+    if !errors.is_empty() {
+        return json!({"parse_errors": errors.iter().map(parse_error_json).collect::<Vec<_>>()});
+    }
+
+    let mut env = Env::new(id_gen, vfs);
+    if let Some(n) = job["tick_limit"].as_u64() {
+        env.tick_limit = Some(n as usize);
+    }
+    if let Some(n) = job["stack_limit"].as_u64() {
+        env.stack_limit = Some(n as usize);
+    }
+    if job["sandbox"].as_bool().unwrap_or(false) {
+        env.enforce_sandbox = true;
+    }
+    if let Some(args) = job["args"].as_array() {
+        env.cli_args = args.iter().filter_map(|a| a.as_str().map(|s| s.to_owned())).collect();
+    }
+    let ns = env.get_or_create_namespace(&path);
+    env.current_frame_mut().namespace = ns;
+
+    let stdout_buf = Arc::new(Mutex::new(String::new()));
+    let stderr_buf = Arc::new(Mutex::new(String::new()));
+    let session = Session {
+        interrupted: Arc::new(AtomicBool::new(false)),
+        stdout_stderr_mode: StdoutStderrMode::WriteToNReplBuffers {
+            stdout_buf: Arc::clone(&stdout_buf),
+            stderr_buf: Arc::clone(&stderr_buf),
+        },
+        start_time: Instant::now(),
+        trace_exprs: false,
+        pretty_print_json: false,
+    };
+
+    let r = eval_toplevel_items(&vfs_path, &items, &mut env, &session);
+    let mut res = serde_json::Map::new();
+    match r {
+        Ok(summary) => {
+            res.insert("outcome".into(), json!({"kind": "ok"}));
+            res.insert(
+                "values".into(),
+                J::Array(summary.values.iter().map(|v| J::String(v.display(&env))).collect()),
+            );
+            res.insert(
+                "tests".into(),
+                J::Array(
+                    summary
+                        .tests
+                        .iter()
+                        .map(|(sym, err, _)| json!({"name": sym.name.text, "error": err.as_ref().map(eval_error_json)}))
+                        .collect(),
+                ),
+            );
+        }
+        Err(e) => {
+            res.insert("outcome".into(), eval_error_json(&e));
+        }
+    }
+    res.insert("stdout".into(), J::String(stdout_buf.lock().unwrap().clone()));
+    res.insert("stderr".into(), J::String(stderr_buf.lock().unwrap().clone()));
+    res.insert("ticks".into(), json!(env.ticks));
+    J::Object(res)
+}
+
+/// Feed request lines to one JSON session (`handle_request_in_worker`
+/// on one `Env`), capturing the responses of each request.
+fn job_session(job: &J) -> J {
+    let empty = vec![];
+    let requests = job["requests"].as_array().unwrap_or(&empty);
+
+    let interrupted = Arc::new(AtomicBool::new(false));
+    let mut session = Session {
+        interrupted: Arc::clone(&interrupted),
+        stdout_stderr_mode: StdoutStderrMode::WriteJson(StdoutJsonFormat::ReplSession),
+        start_time: Instant::now(),
+        trace_exprs: false,
+        pretty_print_json: false,
+    };
+    let mut env = Env::new(IdGenerator::default(), Vfs::default());
+    if let Some(n) = job["tick_limit"].as_u64() {
+        env.tick_limit = Some(n as usize);
+    }
+
+    if let Some(at) = job["inject"].as_array() {
+        let at: Vec<usize> = at.iter().filter_map(|x| x.as_u64().map(|n| n as usize)).collect();
+        INJECT.with(|i| *i.borrow_mut() = Some((0, at)));
+    }
+    let want_canon = job["canon"].as_bool().unwrap_or(false);
+
+    let mut out = vec![];
+    let mut canons = vec![];
+    let mut panicked: Option<(usize, String)> = None;
+    start_capture();
+    for (i, req) in requests.iter().enumerate() {
+        let line = match req {
+            J::String(s) => s.clone(),
+            other => other.to_string(),
+        };
+        let r = verif_rt::guarded(|| {
+            // Mirror of json_session::handle_request: an interrupt
+            // request sets the flag and is answered outside the worker.
+            if crate::json_session::verif_access::is_interrupt_request(&line) {
+                interrupted.store(true, Ordering::Relaxed);
+                capture("{\"kind\":{\"interrupted\":{\"stack_frame_name\":null}},\"position\":null}");
+            } else {
+                crate::json_session::verif_access::handle_request_in_worker(&line, &mut env, &mut session);
+            }
+        });
+        out.push(J::Array(take_capture().into_iter().map(J::String).collect()));
+        if want_canon {
+            canons.push(J::String(canon_env(&env)));
+        }
+        if let Err(msg) = r {
+            panicked = Some((i, msg));
+            break;
+        }
+    }
+    stop_capture();
+    let steps = INJECT.with(|i| i.borrow_mut().take()).map(|(c, _)| c);
+    let mut res = serde_json::Map::new();
+    res.insert("responses".into(), J::Array(out));
+    res.insert("ticks".into(), json!(env.ticks));
+    if let Some(s) = steps {
+        res.insert("steps".into(), json!(s));
+    }
+    if want_canon {
+        res.insert("canon".into(), J::Array(canons));
+    }
+    if let Some((i, msg)) = panicked {
+        res.insert("panic".into(), json!({"request": i, "message": msg}));
+    }
+    J::Object(res)
+}
+
+/// Canonical, property-relevant projection of an `Env`.
+pub(crate) fn canon_env(env: &Env) -> String {
+    let mut s = String::new();
+    for frame in &env.stack.0 {
+        s.push_str(&format!("F[{}|", frame.enclosing_name));
+        for (state, e) in &frame.exprs_to_eval {
+            s.push_str(&format!("{:?}:{};", state, norm_debug(&e.expr_)));
+        }
+        s.push('|');
+        for v in &frame.evalled_values {
+            s.push_str(&v.display(env));
+            s.push(';');
+        }
+        s.push('|');
+        for block in &frame.bindings.block_bindings {
+            let mut names: Vec<(String, String)> = block
+                .values
+                .iter()
+                .map(|(id, v)| {
+                    let name = env
+                        .id_gen
+                        .intern_id_to_name
+                        .get(id)
+                        .map(|n| n.text.clone())
+                        .unwrap_or_else(|| format!("{id:?}"));
+                    (name, v.display(env))
+                })
+                .collect();
+            names.sort();
+            s.push_str(&format!("{names:?}/"));
+        }
+        s.push_str(&format!("|ns={}]", frame.namespace.borrow().abs_path.display()));
+    }
+    // User-visible definitions that differ from the prelude.
+    let prelude = env.prelude_namespace.borrow();
+    let mut ns_paths: Vec<_> = env.namespaces.keys().cloned().collect();
+    ns_paths.sort();
+    for p in ns_paths {
+        let name = p.display().to_string();
+        if name.starts_with("__") && name != "__user.gdn" {
+            continue;
+        }
+        let ns = env.namespaces[&p].borrow();
+        let mut entries: Vec<(String, String)> = vec![];
+        for (k, v) in ns.values.iter() {
+            if let Some(pv) = prelude.values.get(k) {
+                if pv == v {
+                    continue;
+                }
+            }
+            entries.push((k.text.clone(), v.display(env)));
+        }
+        entries.sort();
+        let mut types: Vec<String> = ns.types.keys().map(|t| t.text.clone()).collect();
+        types.sort();
+        s.push_str(&format!("NS[{name}|{entries:?}|{types:?}]"));
+    }
+    let mut tests: Vec<_> = env.tests.keys().map(|k| k.text.clone()).collect();
+    tests.sort();
+    s.push_str(&format!("T{tests:?}"));
+    let mut types: Vec<_> = env.types.keys().map(|k| k.text.clone()).collect();
+    types.sort();
+    s.push_str(&format!("TY{}", types.len()));
+    s
+}
+
+fn handle_job(job: &J) -> J {
+    let op = job["op"].as_str().unwrap_or("");
+    let r = verif_rt::guarded(|| match op {
+        "ping" => json!({"pong": true}),
+        "front" => job_front(job),
+        "run" => job_run(job),
+        "session" => job_session(job),
+        _ => json!({"error": format!("unknown op {op}")}),
+    });
+    stop_capture();
+    INJECT.with(|i| *i.borrow_mut() = None);
+    match r {
+        Ok(v) => v,
+        Err(msg) => json!({"panic": msg}),
+    }
+}
+
+fn serve() {
+    verif_rt::install_panic_hook();
+    let stdin = std::io::stdin();
+    let stdout = std::io::stdout();
+    for line in stdin.lock().lines() {
+        let Ok(line) = line else { break };
+        if line.trim().is_empty() {
+            continue;
+        }
+        let reply = match serde_json::from_str::<J>(&line) {
+            Ok(J::Array(jobs)) => J::Array(jobs.iter().map(handle_job).collect()),
+            Ok(job) => handle_job(&job),
+            Err(e) => json!({"error": format!("bad job json: {e}")}),
+        };
+        let mut out = stdout.lock();
+        let _ = writeln!(out, "{reply}");
+        let _ = out.flush();
+    }
+}
+
+/// Entry point: returns true when the process was invoked as
+/// `garden verif <mode>` and the mode has run.
+pub(crate) fn maybe_run() -> bool {
+    let args: Vec<String> = std::env::args().collect();
+    if args.get(1).map(|s| s.as_str()) != Some("verif") {
+        return false;
+    }
+    match args.get(2).map(|s| s.as_str()) {
+        Some("serve") => serve(),
+        other => {
+            eprintln!("unknown verif mode {other:?}");
+            std::process::exit(3);
+        }
+    }
+    true
+}
